@@ -9,6 +9,7 @@ from toposort import toposort_flatten
 
 from cassis.cas import NAME_DEFAULT_SOFA, Cas, IdGenerator, Sofa, View
 from cassis.typesystem import (
+    is_default_document_annotation,
     TYPE_NAME_ANNOTATION,
     TypeSystem,
     is_predefined,
@@ -439,7 +440,7 @@ class CasJsonSerializer:
 
             for type_ in sorted(types_to_include, key=lambda x: x.name):
                 # The implicitly added DocumentAnnotation is not written, unless it was extended
-                if type_.name == TYPE_NAME_DOCUMENT_ANNOTATION and [f.name for f in type_.features] == ["language"]:
+                if is_default_document_annotation(type_):
                     continue
                 json_type = self._serialize_type(type_)
                 types[json_type[NAME_FIELD]] = json_type
